@@ -141,8 +141,8 @@ func (fr *frame) doCall(b *ssa.BasicBlock, st *state, ins ssa.Instruction, call 
 		}
 	}
 	inMod := callee.Pkg != nil && vc.w.inModule(callee.Pkg.Pkg.Path()) || (callee.Parent() != nil)
-	if inMod && callee.Blocks != nil && fr.depth < maxInlineDepth && !vc.recursive(callee) && (len(fr.calleeLoops(callee)) == 0 || (ct != nil && ct.Inline)) && !vc.onStack(callee) {
-		fr.inlineCall(b, st, ins, v, callee, args, ct)
+	if fr.willInline(callee) {
+		fr.inlineCall(b, st, ins, v, callee, args, ct, call)
 		return
 	}
 	ms := newModset()
@@ -300,7 +300,7 @@ func (fr *frame) applyContract(b *ssa.BasicBlock, st *state, ins ssa.Instruction
 	default:
 		ms = newModset()
 	}
-	vc.havoc(st, pre, ms, "call "+label, argRoot(args))
+	vc.havoc(st, pre, ms, "call "+label, argRoot(args), nil)
 	results := fr.freshResults(v, st, sig, "c"+fmt.Sprint(len(vc.obls)))
 	for i, r := range results {
 		vc.typed(r, sig.Results().At(i).Type(), st)
@@ -496,7 +496,7 @@ func (w *world) computeSCCs(ma *modAnalysis) {
 func (fr *frame) opaque(b *ssa.BasicBlock, st *state, ins ssa.Instruction, v ssa.Value, sig *types.Signature, ms *modset, what string, inModule bool, args []string) {
 	vc := fr.vc
 	pre := st.clone()
-	vc.havoc(st, pre, ms, what, argRoot(args))
+	vc.havoc(st, pre, ms, what, argRoot(args), nil)
 	if inModule {
 		vc.assumed["uncontracted module "+what+": does not panic, result unconstrained"] = true
 		vc.opaqueModule = append(vc.opaqueModule, what)
@@ -534,7 +534,7 @@ func (fr *frame) doSpawn(b *ssa.BasicBlock, st *state, x *ssa.Go) {
 	}
 }
 
-func (fr *frame) inlineCall(b *ssa.BasicBlock, st *state, ins ssa.Instruction, v ssa.Value, callee *ssa.Function, args []string, ct *contract) {
+func (fr *frame) inlineCall(b *ssa.BasicBlock, st *state, ins ssa.Instruction, v ssa.Value, callee *ssa.Function, args []string, ct *contract, call *ssa.CallCommon) {
 	vc := fr.vc
 	c := vc.c
 	vc.nInl++
@@ -547,6 +547,20 @@ func (fr *frame) inlineCall(b *ssa.BasicBlock, st *state, ins ssa.Instruction, v
 	}
 	for i, fv := range callee.FreeVars {
 		sub.vals[fv] = args[len(callee.Params)+i]
+	}
+	// local objects of the caller passed as arguments keep their identity inside the inlined body
+	if call != nil {
+		actuals := callArgs(call)
+		for i, p := range callee.Params {
+			if i < len(actuals) {
+				_, root := vc.ma.valueRoot(actuals[i], map[*ssa.BasicBlock]bool{}, 0)
+				if root != nil {
+					if ot, ok := fr.objTerm[root]; ok {
+						sub.objTerm[p] = ot
+					}
+				}
+			}
+		}
 	}
 	vc.stack = append(vc.stack, callee)
 	sub.exec(st)
@@ -586,6 +600,17 @@ func (fr *frame) inlineCall(b *ssa.BasicBlock, st *state, ins ssa.Instruction, v
 		results = append(results, n)
 	}
 	fr.setResult(v, st, results, sig)
+	// a freshly allocated object returned by the inlined callee is a local object of the caller from now on
+	if v != nil && len(sub.rets) == 1 && nres == 1 {
+		if ret, ok := sub.rets[0].block.Instrs[len(sub.rets[0].block.Instrs)-1].(*ssa.Return); ok && len(ret.Results) == 1 {
+			_, root := vc.ma.valueRoot(ret.Results[0], map[*ssa.BasicBlock]bool{}, 0)
+			if root != nil {
+				if ot, ok := sub.objTerm[root]; ok {
+					fr.objTerm[v] = ot
+				}
+			}
+		}
+	}
 	for _, n := range sub.notesFromDefers() {
 		c.note(n)
 	}
@@ -681,4 +706,18 @@ func argRoot(args []string) func(ssa.Value) (string, bool) {
 		}
 		return args[i], true
 	}
+}
+
+// willInline: the callee is a small contract-less (or explicitly inline) module function that is executed in place.
+func (fr *frame) willInline(callee *ssa.Function) bool {
+	vc := fr.vc
+	ct := vc.w.db.Contracts[callee.String()]
+	if ct != nil && !ct.Inline {
+		return false
+	}
+	if ct == nil && callee.Signature.Recv() != nil && len(vc.w.ifaceContractsFor(callee)) > 0 {
+		return false
+	}
+	inMod := callee.Pkg != nil && vc.w.inModule(callee.Pkg.Pkg.Path()) || (callee.Parent() != nil)
+	return inMod && callee.Blocks != nil && fr.depth < maxInlineDepth && !vc.recursive(callee) && (len(fr.calleeLoops(callee)) == 0 || (ct != nil && ct.Inline)) && !vc.onStack(callee)
 }
